@@ -202,6 +202,7 @@ def model_part(wd, quick):
         vf.must_violate(wd, "AsyncPages.tla", f"MC_AsyncPages_bug_{b}.cfg", f"AsyncPages mutant {b}")
     vf.must_violate(wd, "AsyncPages.tla", "MC_AsyncPages_weak.cfg", "AsyncPages under weak fairness only")
     vf.must_violate(wd, "AsyncPages.tla", "MC_AsyncPages_bug_nodrain.cfg", "AsyncPages Close without drain")
+    vf.must_violate(wd, "AsyncPages.tla", "MC_AsyncPages_bug_sendfirst.cfg", "AsyncPages SeekToRow that sends before draining")
     xs.append(vf.model_check(wd, "LazyPublish.tla", "MC_LazyPublish.cfg", "X LazyPublish"))
     vf.must_violate(wd, "LazyPublish.tla", "MC_LazyPublish_bug.cfg", "LazyPublish with Store")
     xs.append(vf.model_check(wd, "MC_RowGroups.tla", "MC_RowGroups.cfg", "X RowGroups"))
